@@ -80,7 +80,7 @@ def case_strategy(draw, percpu=False):
     ops = []
     for _ in range(draw(st.integers(3, 25))):
         kind = draw(st.sampled_from(
-            ["py_hget", "py_hset", "pr_hget", "pr_hset", "py_dset",
+            ["py_hget", "py_hset", "pr_hget", "pr_hset", "pr_hsetx", "py_dset",
              "py_dget", "py_ddel", "py_dpop", "py_dpopd", "py_diter",
              "pr_dupd", "pr_dlook", "pr_dmod", "py_aget", "py_pread"]))
         k = draw(st.integers(0, len(hv) - 1))
@@ -92,6 +92,7 @@ def case_strategy(draw, percpu=False):
               "vals": [val_for(draw, x) for x in vf]}
         ops.append(op)
         other = {"py_hset": "pr_hget", "pr_hset": "py_hget",
+                 "pr_hsetx": "py_hget",
                  "py_dset": "pr_dlook", "pr_dupd": "py_dget",
                  "pr_dmod": "py_dget"}.get(kind)
         if other and draw(st.booleans()):
@@ -196,6 +197,12 @@ def build(case, f):
         with e.op == 6:
             e.pc0 = e.a0
             e.pc1 = 77
+        with e.op == 7:
+            # store a computed value (it lives in a stack temporary)
+            for i in range(len(hv)):
+                with e.sel == i:
+                    setattr(e, f"hv{i}",
+                            e.ax + 2 if hv[i]["fmt"] == "x" else e.a0 + 3)
         e.exit(XDPExitCode.TX)
 
     ns["program"] = program
@@ -224,6 +231,7 @@ def run_case(case, judge_overruns=False):
     with ctx(ncpu=case["ncpu"]) as f:
         if not on_kernel:
             f.online_cpus = max(1, case["ncpu"] - case["online_delta"])
+            f.possible_form = case.get("possible_form", 0)
         try:
             e, Key, Value = build(case, f)
         except AssembleError:
@@ -241,6 +249,7 @@ def run_case(case, judge_overruns=False):
         order = []
         crossed = False
         written_by = {}
+        held = []
 
         def run_prog(**ctl):
             for name, v in ctl.items():
@@ -297,6 +306,17 @@ def run_case(case, judge_overruns=False):
                     v = op["hval"] / 100000 if fmt == "x" else op["hval"]
                     run_prog(op=1, sel=k, **{"ax" if fmt == "x" else "a0": v})
                     cells[k] = v
+                    written_by["h", k] = "pr"
+                elif kind == "pr_hsetx":
+                    if fmt == "x":
+                        v = op["hval"] / 100000
+                        run_prog(op=7, sel=k, ax=v)
+                        cells[k] = (op["hval"] + 200000) / 100000
+                    else:
+                        lo, hi = dsl.fmt_range(fmt)
+                        v = min(op["hval"], hi - 3)
+                        run_prog(op=7, sel=k, a0=v)
+                        cells[k] = v + 3
                     written_by["h", k] = "pr"
                 elif kind == "pr_hget":
                     run_prog(op=2, sel=k, o0=-12345, ox=-1.5)
@@ -361,6 +381,17 @@ def run_case(case, judge_overruns=False):
                         return fail(f"{kind} of an absent key returned {v!r} "
                                     f"instead of raising KeyError",
                                     bucket=kind)
+                    for hobj, hwant, hkey in held:
+                        # values returned earlier are snapshots of their own
+                        hgot = [getattr(hobj, n) for n in vnames]
+                        if hgot != hwant:
+                            return fail(
+                                f"the value returned by an earlier lookup of "
+                                f"{hkey} now shows {hgot} instead of {hwant} "
+                                f"(after {kind} of {key})", bucket="held")
+                    if v is not None:
+                        held.append((v, list(table[key]), key))
+                        del held[:-2]
                     if v is not None:
                         got = [getattr(v, n) for n in vnames]
                         if written_by.get(("d", key)) == "pr":
